@@ -539,26 +539,59 @@ func (s *Session) Data(r io.Reader) error {
 	return nil
 }
 
+// statusWrapper collects the per-recipient statuses set by the delivery and
+// passes them to go-smtp only after Commit, once per recipient.
+//
+// go-smtp sends the reply for a recipient as soon as it gets the status and
+// accepts only one status per RCPT command. If statuses were forwarded
+// directly, a recipient handled by several targets would get the status of
+// whichever target reported first (and the second status would panic), and a
+// Commit failure could not be reported to recipients already answered with 250.
 type statusWrapper struct {
 	sc smtp.StatusCollector
 	s  *Session
 
-	// Serializes access to s.rcptArgs, SetStatus may be called from multiple
-	// goroutines.
-	lock *sync.Mutex
+	// SetStatus may be called from multiple goroutines.
+	lock   sync.Mutex
+	order  []string
+	status map[string]error
 }
 
-func (sw statusWrapper) SetStatus(rcpt string, err error) {
+func (sw *statusWrapper) SetStatus(rcpt string, err error) {
+	sw.lock.Lock()
+	defer sw.lock.Unlock()
+
 	// The status collector of go-smtp knows recipients as they were sent by
 	// the client, not in the normalized form the pipeline uses.
-	sw.lock.Lock()
-	if args := sw.s.rcptArgs[rcpt]; len(args) != 0 {
-		sw.s.rcptArgs[rcpt] = args[1:]
-		rcpt = args[0]
+	args := sw.s.rcptArgs[rcpt]
+	if len(args) == 0 {
+		args = []string{rcpt}
 	}
-	sw.lock.Unlock()
+	for _, arg := range args {
+		prev, ok := sw.status[arg]
+		if !ok {
+			sw.order = append(sw.order, arg)
+		}
+		// The first failure wins.
+		if !ok || prev == nil {
+			sw.status[arg] = err
+		}
+	}
+}
 
-	sw.sc.SetStatus(rcpt, sw.s.endp.wrapErr(sw.s.msgMeta.ID, !sw.s.opts.UTF8, "DATA", err))
+// flush reports collected statuses. Recipients without a failure get
+// commitErr (nil if Commit succeeded).
+func (sw *statusWrapper) flush(commitErr error) {
+	sw.lock.Lock()
+	defer sw.lock.Unlock()
+
+	for _, rcpt := range sw.order {
+		err := sw.status[rcpt]
+		if err == nil {
+			err = commitErr
+		}
+		sw.sc.SetStatus(rcpt, sw.s.endp.wrapErr(sw.s.msgMeta.ID, !sw.s.opts.UTF8, "DATA", err))
+	}
 }
 
 func (s *Session) LMTPData(r io.Reader, sc smtp.StatusCollector) error {
@@ -603,12 +636,15 @@ func (s *Session) LMTPData(r io.Reader, sc smtp.StatusCollector) error {
 		return wrapErr(err)
 	}
 
-	s.delivery.(module.PartialDelivery).BodyNonAtomic(bodyCtx, statusWrapper{sc: sc, s: s, lock: new(sync.Mutex)}, header, buf)
+	statuses := &statusWrapper{sc: sc, s: s, status: map[string]error{}}
+	s.delivery.(module.PartialDelivery).BodyNonAtomic(bodyCtx, statuses, header, buf)
 
 	// We can't really tell whether it is failed completely or succeeded
 	// so always commit. Should be harmless, anyway.
 	commitAttempted = true
-	if err := s.delivery.Commit(bodyCtx); err != nil {
+	err = s.delivery.Commit(bodyCtx)
+	statuses.flush(err)
+	if err != nil {
 		return wrapErr(err)
 	}
 
